@@ -104,6 +104,10 @@ class LFK:
             ob = Ob("%s: returns normally on every path" % base, "sat", 0, [self.fname], "Int-LF", detail=str([p.outcome for p in bad][:2]))
             self.chk.add(ob)
             self.sat_obs.append(ob)
+        # a computational kernel keeps no state: it writes only through its pointer arguments, never to package-level
+        # storage (a shared scratch variable makes every caller unsafe for concurrent use and impure)
+        gw = sorted({self.ex.meta[w[1]].name for p in paths for w in p.log if w[0] == "w" and w[1] in self.ex.meta and self.ex.meta[w[1]].kind == "global"})
+        self.chk.fact("%s: writes no package-level storage (no hidden scratch state shared between calls or goroutines)" % base, not gw, [self.fname], "effects", detail=str(gw[:3]))
         for i, p in enumerate(good):
             self.label = base if len(good) == 1 else "%s [path %d/%d]" % (base, i + 1, len(good))
             yield p
